@@ -31,6 +31,8 @@ type apiStep struct {
 	Skip   string   `json:"skip,omitempty"`
 	// rendering of the result (validation on, compact, no named arguments)
 	Render *Render `json:"render,omitempty"`
+	// receiver and arguments dumped again after the call: "" if unchanged, else what changed
+	Mutated string `json:"mutated,omitempty"`
 }
 
 // apiParamType is the declared type of the j-th (variadic-flattened) argument of a method type with receiver.
@@ -301,6 +303,14 @@ func runAPI(out io.Writer, seed int64, n int, depth int) {
 		}
 		step.ID, step.Args, step.Result = id, ea, res
 		step.Render = apiRender(outv)
+		if isMethod {
+			if rv2, ok := safeDump(args[0]); ok && rv2 != step.Recv {
+				step.Mutated = "receiver"
+			}
+		}
+		if ea2, ok := encodeArgs(d, mt, margs); ok && strings.Join(ea2, " ") != strings.Join(ea, " ") {
+			step.Mutated += " arguments"
+		}
 		id++
 		ctorBudget--
 		enc.Encode(step)
@@ -430,6 +440,12 @@ func runAPI(out io.Writer, seed int64, n int, depth int) {
 			}
 			step.Result = res
 			step.Render = apiRender(nv)
+			if recv2, ok := safeDump(cur); ok && recv2 != recv {
+				step.Mutated = "receiver"
+			}
+			if args2, ok := encodeArgs(d, pl.Type(), pl.Args()); ok && strings.Join(args2, " ") != strings.Join(args, " ") {
+				step.Mutated += " arguments"
+			}
 			enc.Encode(step)
 			cur, prog = nv, prog+pl.Prog
 		}
